@@ -14,8 +14,10 @@ import (
 	assettypes "github.com/comdex-official/comdex/x/asset/types"
 	auctypes "github.com/comdex-official/comdex/x/auctionsV2/types"
 	esmtypes "github.com/comdex-official/comdex/x/esm/types"
+	liqv1types "github.com/comdex-official/comdex/x/liquidation/types"
 	liqtypes "github.com/comdex-official/comdex/x/liquidationsV2/types"
 	markettypes "github.com/comdex-official/comdex/x/market/types"
+	tokenminttypes "github.com/comdex-official/comdex/x/tokenmint/types"
 	vaulttypes "github.com/comdex-official/comdex/x/vault/types"
 
 	"vh/sim"
@@ -59,7 +61,18 @@ type Config struct {
 	FundDebt                   int64 // fixture-minted debt coins per user (bidders), recorded as fixtureMint
 	Interest                   bool  // register app in rewards so that stability-fee interest accrues
 	Bonus                      Frac  // auction bonus of externally initiated auctions
+	// first-generation ("V1") liquidation + Dutch auction parameters; zero values = defaults (same batch/duration as V2, buffer 6/5, cusp 7/10)
+	BatchV1    uint64
+	DurationV1 uint64
+	BufferV1   Frac
+	CuspV1     Frac
+	// emergency shutdown (x/esm): cool-off period in seconds (0 = 20) and deposit target in governance tokens (0 = 50)
+	CoolOff   uint64
+	EsmTarget int64
 }
+
+// V1DutchMappingID is the auction mapping id under which the fixture registers V1 Dutch auctions (AuctionParams.DutchId).
+const V1DutchMappingID = 3
 
 type World struct {
 	*sim.Env
@@ -70,6 +83,10 @@ type World struct {
 	Decs        map[string]int64
 	Denoms      []string
 	FixtureMint int64
+	V1Bias      bool                   // driver bias: this run lets the first generation do most of the liquidating
+	Esm         bool                   // driver: emergency-shutdown actions enabled
+	EsmBias     bool                   // driver bias: this run heads for an emergency shutdown
+	last        map[string]interface{} // projection of the current state (pre-state of the next step), for the step labels
 }
 
 var AllDenoms = []string{"ucm", "uat", "ust", "uus", "uhb"}
@@ -82,7 +99,7 @@ func must(err error) {
 
 func (w *World) addAsset(name, denom string, dec int64, priced bool) uint64 {
 	must(w.App.AssetKeeper.AddAssetRecords(w.Ctx, assettypes.Asset{Name: name, Denom: denom, Decimals: sdk.NewInt(dec),
-		IsOnChain: true, IsOraclePriceRequired: priced, IsCdpMintable: true}))
+		IsOnChain: true, IsOraclePriceRequired: priced, IsCdpMintable: denom != "uhb"})) // the governance token of an app must not be CDP-mintable
 	for _, a := range w.App.AssetKeeper.GetAssets(w.Ctx) {
 		if a.Denom == denom {
 			w.Assets[denom] = a.Id
@@ -126,12 +143,30 @@ func (w *World) addProduct(name string, pair uint64, p Product) Product {
 
 // Setup builds the CDP fixture through exported keeper entry points only.
 func Setup(cfg Config) *World {
+	if cfg.BatchV1 == 0 {
+		cfg.BatchV1 = cfg.Batch
+	}
+	if cfg.DurationV1 == 0 {
+		cfg.DurationV1 = cfg.Duration
+	}
+	if cfg.BufferV1.Den == 0 {
+		cfg.BufferV1 = Frac{6, 5}
+	}
+	if cfg.CuspV1.Den == 0 {
+		cfg.CuspV1 = Frac{7, 10}
+	}
+	if cfg.CoolOff == 0 {
+		cfg.CoolOff = 20
+	}
+	if cfg.EsmTarget == 0 {
+		cfg.EsmTarget = 50
+	}
 	var funds []sim.Fund
 	for _, u := range cfg.Users {
 		funds = append(funds, sim.Fund{Name: u})
 	}
 	w := &World{Env: sim.New(funds), Cfg: cfg, Assets: map[string]uint64{}, Decs: map[string]int64{}, Denoms: AllDenoms}
-	must(w.App.AssetKeeper.AddAppRecords(w.Ctx, assettypes.AppData{Name: "harbor", ShortName: "hbr", MinGovDeposit: sdk.NewInt(0), GovTimeInSeconds: 0}))
+	must(w.App.AssetKeeper.AddAppRecords(w.Ctx, assettypes.AppData{Name: "harbor", ShortName: "hbr", MinGovDeposit: sdk.NewInt(1), GovTimeInSeconds: 1}))
 	apps, _ := w.App.AssetKeeper.GetApps(w.Ctx)
 	w.App1 = apps[0].Id
 	// the band validation flag is what keeps market.BeginBlocker from switching every price off each block
@@ -140,7 +175,7 @@ func Setup(cfg Config) *World {
 	ua := w.addAsset("ATOM", "uat", cfg.DecA, true)
 	us := w.addAsset("CMST", "ust", cfg.DecS, true)
 	uu := w.addAsset("USDC", "uus", cfg.DecU, true)
-	w.addAsset("HARBOR", "uhb", 1, false)
+	hb := w.addAsset("HARBOR", "uhb", 1, false)
 	w.SetPrice(uc, 2, true)
 	w.SetPrice(ua, 3, true)
 	w.SetPrice(us, 1, true)
@@ -157,6 +192,8 @@ func Setup(cfg Config) *World {
 	b.CollD, b.CollA = "uat", ua
 	b.MinCr = Frac{2, 1}
 	b.Ceiling = 150 * cfg.DecS
+	b.OutOracle = false // fixed debt price (AssetOutPrice = 1): the ratio values the debt at OutPrice / debt decimals, V2 auctions mark the debt as cmst
+	b.OutPrice = 1
 	w.Prods = append(w.Prods, w.addProduct("ATOMB", p2, b))
 	c := base
 	c.CollD, c.CollA = "uus", uu
@@ -181,9 +218,27 @@ func Setup(cfg Config) *World {
 		WithdrawalFee: sdk.ZeroDec(), ClosingFee: sdk.ZeroDec(), MinUsdValueLeft: 0, BidFactor: sdk.MustNewDecFromStr("0.1"),
 		LiquidationPenalty: sdk.MustNewDecFromStr("0.1"), AuctionBonus: cfg.Bonus.Dec()})
 	w.App.NewliqKeeper.SetParams(w.Ctx, liqtypes.Params{LiquidationBatchSize: cfg.Batch})
+	// first generation: app whitelisted for x/liquidation, Dutch auction parameters of x/auction (as the repository's own tests do)
+	must(w.App.LiquidationKeeper.WasmWhitelistAppIDLiquidation(w.Ctx, w.App1))
+	w.App.LiquidationKeeper.SetParams(w.Ctx, liqv1types.Params{LiquidationBatchSize: cfg.BatchV1})
+	must(w.App.AuctionKeeper.AddAuctionParams(w.Ctx, &bindings.MsgAddAuctionParams{AppID: w.App1, AuctionDurationSeconds: cfg.DurationV1,
+		Buffer: cfg.BufferV1.Dec(), Cusp: cfg.CuspV1.Dec(), Step: 1, PriceFunctionType: 1, SurplusID: 1, DebtID: 2, DutchID: V1DutchMappingID, BidDurationSeconds: 300}))
 	if cfg.Interest {
 		must(w.App.Rewardskeeper.WhitelistAppIDVault(w.Ctx, w.App1))
 	}
+	// emergency shutdown: governance token of the app (genesis-minted through x/tokenmint's message, spread over the users), trigger
+	// parameters with fixed redemption rates for the debt asset and the stable-mint collateral (same scale as the oracle values of the fixture)
+	gov := sim.Addr("gov")
+	must(w.App.AssetKeeper.AddAssetInAppRecords(w.Ctx, assettypes.AppData{Id: w.App1, GenesisToken: []assettypes.MintGenesisToken{
+		{AssetId: hb, GenesisSupply: sdk.NewInt(1000000), IsGovToken: true, Recipient: gov.String()}}}))
+	if r := w.Deliver(&tokenminttypes.MsgMintNewTokensRequest{From: gov.String(), AppId: w.App1, AssetId: hb}); !r.OK {
+		panic("tokenmint: " + r.Err)
+	}
+	for _, u := range cfg.Users {
+		must(w.App.BankKeeper.SendCoins(w.Ctx, gov, sim.Addr(u), sdk.NewCoins(sdk.NewInt64Coin("uhb", 200))))
+	}
+	must(w.App.EsmKeeper.AddESMTriggerParamsForApp(w.Ctx, &bindings.MsgAddESMTriggerParams{AppID: w.App1, TargetValue: sdk.NewInt64Coin("uhb", cfg.EsmTarget),
+		CoolOffPeriod: cfg.CoolOff, AssetID: []uint64{us, uu}, Rates: []uint64{1, 1}}))
 	for _, u := range cfg.Users {
 		coins := sdk.NewCoins(sdk.NewInt64Coin("ucm", cfg.FundColl), sdk.NewInt64Coin("uat", cfg.FundColl), sdk.NewInt64Coin("uus", cfg.FundColl))
 		if cfg.FundDebt > 0 {
@@ -315,6 +370,27 @@ func (w *World) Project() map[string]interface{} {
 			"collA": a.CollateralAssetId, "debtA": a.DebtAssetId, "nbids": len(a.BiddingIds)})
 	}
 	st["auctions"] = aucs
+	// first generation: locked vaults of x/liquidation, Dutch auctions of x/auction
+	l1 := []interface{}{}
+	for _, l := range app.LiquidationKeeper.GetLockedVaults(ctx) {
+		l1 = append(l1, map[string]interface{}{"id": l.LockedVaultId, "app": l.AppId, "orig": l.OriginalVaultId, "prod": l.ExtendedPairId, "owner": who(l.Owner),
+			"in": i64(l.AmountIn), "out": i64(l.AmountOut), "fees": i64(l.InterestAccumulated), "prog": l.IsAuctionInProgress, "done": l.IsAuctionComplete})
+	}
+	st["lockedV1"] = l1
+	a1 := []interface{}{}
+	for _, a := range app.AuctionKeeper.GetDutchAuctions(ctx, w.App1) {
+		a1 = append(a1, map[string]interface{}{"id": a.AuctionId, "app": a.AppId, "lv": a.LockedVaultId, "map": a.AuctionMappingId,
+			"collInit": i64(a.OutflowTokenInitAmount.Amount), "collLeft": i64(a.OutflowTokenCurrentAmount.Amount), "collD": a.OutflowTokenCurrentAmount.Denom,
+			"debtGot": i64(a.InflowTokenCurrentAmount.Amount), "target": i64(a.InflowTokenTargetAmount.Amount), "debtD": a.InflowTokenTargetAmount.Denom,
+			"price": decL(a.OutflowTokenCurrentPrice), "init": decL(a.OutflowTokenInitialPrice), "endp": decL(a.OutflowTokenEndPrice),
+			"inPrice": a.InflowTokenCurrentPrice.TruncateInt64(), "start": a.StartTime.Unix() - sim.GenesisTime.Unix(), "end": a.EndTime.Unix() - sim.GenesisTime.Unix(),
+			"status": int64(a.AuctionStatus), "owner": who(a.VaultOwner.String()), "nbids": len(a.BiddingIds), "collA": a.AssetOutId, "debtA": a.AssetInId})
+	}
+	st["auctionsV1"] = a1
+	off1, _ := app.LiquidationKeeper.GetLiquidationOffsetHolder(ctx, w.App1, liqv1types.VaultLiquidationsOffsetPrefix)
+	st["offsetV1"] = off1.CurrentOffset
+	st["lockedV1next"] = app.LiquidationKeeper.GetLockedVaultID(ctx)
+	st["auctionV1next"] = app.AuctionKeeper.GetAuctionID(ctx)
 	nf := []interface{}{}
 	for _, p := range w.Prods {
 		_ = p
@@ -343,6 +419,41 @@ func (w *World) Project() map[string]interface{} {
 	ks, _ := app.EsmKeeper.GetKillSwitchData(ctx, w.App1)
 	es, efound := app.EsmKeeper.GetESMStatus(ctx, w.App1)
 	st["ctl"] = map[string]interface{}{"breaker": ks.BreakerEnable, "esm": efound && es.Status}
+	// emergency shutdown books: status flags, cool-off end, price snapshot, redemption data (debt registered / collateral held, shares)
+	dep, _ := app.EsmKeeper.GetCurrentDepositStats(ctx, w.App1)
+	depAmt := int64(0)
+	if !dep.Balance.Amount.IsNil() {
+		depAmt = i64(dep.Balance.Amount)
+	}
+	rel := func(t time.Time) int64 {
+		if t.IsZero() || t.Unix() < sim.GenesisTime.Unix() {
+			return 0
+		}
+		return t.Unix() - sim.GenesisTime.Unix()
+	}
+	esm := map[string]interface{}{"found": efound, "status": efound && es.Status, "start": rel(es.StartTime), "end": rel(es.EndTime), "snap": es.SnapshotStatus,
+		"vaultRed": es.VaultRedemptionStatus, "stableRed": es.StableVaultRedemptionStatus, "collTx": es.CollectorTransaction, "shareCalc": es.ShareCalculation,
+		"deposit": depAmt, "target": w.Cfg.EsmTarget}
+	cool, cfound := app.EsmKeeper.GetDataAfterCoolOff(ctx, w.App1)
+	esm["cool"] = map[string]interface{}{"found": cfound, "coll": decL(cool.CollateralTotalAmount), "debt": decL(cool.DebtTotalAmount)}
+	ea := []interface{}{}
+	for _, x := range app.EsmKeeper.GetAllAssetToAmount(ctx, w.App1) {
+		dn := ""
+		for d, id := range w.Assets {
+			if id == x.AssetID {
+				dn = d
+			}
+		}
+		ea = append(ea, map[string]interface{}{"asset": x.AssetID, "denom": dn, "amt": i64(x.Amount), "coll": x.IsCollateral, "share": decL(x.Share), "worth": decL(x.DebtTokenWorth)})
+	}
+	esm["assets"] = ea
+	sn := []interface{}{}
+	for _, d := range []string{"ucm", "uat", "ust", "uus"} {
+		pr, f := app.EsmKeeper.GetSnapshotOfPrices(ctx, w.App1, w.Assets[d])
+		sn = append(sn, map[string]interface{}{"denom": d, "price": int64(pr), "found": f})
+	}
+	esm["snaps"] = sn
+	st["esm"] = esm
 	off, _ := app.NewliqKeeper.GetLiquidationOffsetHolder(ctx, liqtypes.VaultLiquidationsOffsetPrefix, 0)
 	st["offset"] = off.CurrentOffset
 	st["t"] = ctx.BlockTime().Unix() - sim.GenesisTime.Unix()
@@ -378,8 +489,117 @@ func (w *World) ConfigJSON() map[string]interface{} {
 		ps = append(ps, p)
 	}
 	return map[string]interface{}{"prods": ps, "decs": w.Decs, "assets": w.Assets, "batch": w.Cfg.Batch, "duration": w.Cfg.Duration,
-		"users": w.Cfg.Users, "app": w.App1, "premium": Frac{6, 5}, "discount": Frac{7, 10}, "keeperIncentive": Frac{1, 10}, "interest": w.Cfg.Interest, "bonus": w.Cfg.Bonus, "extPenalty": Frac{1, 10}}
+		"users": w.Cfg.Users, "app": w.App1, "premium": Frac{6, 5}, "discount": Frac{7, 10}, "keeperIncentive": Frac{1, 10}, "interest": w.Cfg.Interest, "bonus": w.Cfg.Bonus, "extPenalty": Frac{1, 10},
+		"esm": map[string]interface{}{"coolOff": w.Cfg.CoolOff, "target": w.Cfg.EsmTarget, "rates": map[string]int64{"ust": 1, "uus": 1}},
+		"v1":  map[string]interface{}{"batch": w.Cfg.BatchV1, "duration": w.Cfg.DurationV1, "buffer": w.Cfg.BufferV1, "cusp": w.Cfg.CuspV1, "dutchMap": V1DutchMappingID}}
 }
 
 var _ = time.Second
 var _ = esmtypes.ModuleName
+
+// Record projects the state after action a, attaches the step labels and appends the node to the log.
+func (w *World) Record(lg *sim.Log, par int, run string, root int, a Act, rs Res) (int, map[string]interface{}) {
+	st := w.Project()
+	ev := w.labels(w.last, st, a)
+	w.last = st
+	return lg.Add(par, run, a.A, a.Args(), rs, map[string]interface{}{"s": st, "root": root, "ev": ev}), st
+}
+
+// labels names what happened in a step, computed from the recorded pre- and post-state only (nothing is judged here): which
+// emergency-shutdown stages were completed by this step, how many auctions of either generation were due for their
+// emergency-shutdown close-out in it, how many vaults a block hook created. Known findings are keyed on these labels so that
+// an entry matches exactly the kind of step it describes.
+func (w *World) labels(pre, post map[string]interface{}, a Act) map[string]interface{} {
+	flag := func(st map[string]interface{}, k string) bool {
+		e, _ := st["esm"].(map[string]interface{})
+		b, _ := e[k].(bool)
+		return b
+	}
+	flip := func(k string) bool { return !flag(pre, k) && flag(post, k) }
+	ev := map[string]interface{}{"esmSnap": flip("snap"), "esmVaultRed": flip("vaultRed"), "esmStableRed": flip("stableRed"),
+		"esmCollTx": flip("collTx"), "esmShare": flip("shareCalc"), "esmOn": flag(pre, "status")}
+	// the stable-vault stage completed in this step while stable-mint vault records existed (KF-C01-ESM-1 is about exactly those steps)
+	nStable := 0
+	if sv, ok := pre["svaults"].([]interface{}); ok {
+		nStable = len(sv)
+	}
+	ev["esmStableLeft"] = flip("stableRed") && nStable > 0
+	tPost, _ := post["t"].(int64)
+	due := func(key string, only map[uint64]bool) int {
+		n := 0
+		if !flag(pre, "status") {
+			return 0
+		}
+		list, _ := pre[key].([]interface{})
+		for _, x := range list {
+			m := x.(map[string]interface{})
+			if d, ok := m["dutch"].(bool); ok && !d {
+				continue
+			}
+			if only != nil && !only[m["lv"].(uint64)] {
+				continue
+			}
+			if end, _ := m["end"].(int64); tPost > end {
+				n++
+			}
+		}
+		return n
+	}
+	vaultInit := map[uint64]bool{} // V2 locked vaults that came from a vault (TriggerEsm handles only those)
+	if ls, ok := pre["locked"].([]interface{}); ok {
+		for _, x := range ls {
+			m := x.(map[string]interface{})
+			if m["initiator"] == "vault" {
+				vaultInit[m["id"].(uint64)] = true
+			}
+		}
+	}
+	ev["v2EsmDue"], ev["v1EsmDue"] = 0, 0
+	if a.A == "Block" {
+		ev["v2EsmDue"] = due("auctions", vaultInit)
+	}
+	if a.A == "V1Tick" {
+		ev["v1EsmDue"] = due("auctionsV1", nil)
+	}
+	// v2Esm: a block under shutdown in which V2 TriggerEsm was due for a vault-initiated Dutch auction AND re-opened a vault (a new vault id, or an
+	// existing vault's collateral grew - nothing else does that in a block under shutdown); a due close-out that failed and was rolled back is not labelled
+	grew := false
+	preIn := map[uint64]int64{}
+	if vs, ok := pre["vaults"].([]interface{}); ok {
+		for _, x := range vs {
+			m := x.(map[string]interface{})
+			preIn[m["id"].(uint64)] = m["in"].(int64)
+		}
+	}
+	if vs, ok := post["vaults"].([]interface{}); ok {
+		for _, x := range vs {
+			m := x.(map[string]interface{})
+			if old, had := preIn[m["id"].(uint64)]; !had || m["in"].(int64) > old {
+				grew = true
+			}
+		}
+	}
+	ev["v2Esm"] = ev["v2EsmDue"].(int) > 0 && grew
+	// v1Esm: a V1 tick under shutdown that closed out at least one V1 Dutch auction
+	n1 := func(st map[string]interface{}) int { l, _ := st["auctionsV1"].([]interface{}); return len(l) }
+	ev["v1Esm"] = ev["v1EsmDue"].(int) > 0 && n1(post) < n1(pre)
+	ids := func(st map[string]interface{}) map[uint64]bool {
+		out := map[uint64]bool{}
+		list, _ := st["vaults"].([]interface{})
+		for _, x := range list {
+			out[x.(map[string]interface{})["id"].(uint64)] = true
+		}
+		return out
+	}
+	nv := 0
+	if a.A != "Create" && a.A != "Init" {
+		before := ids(pre)
+		for id := range ids(post) {
+			if !before[id] {
+				nv++
+			}
+		}
+	}
+	ev["hookVaults"] = nv
+	return ev
+}
